@@ -1038,7 +1038,7 @@ let dispatch line =
   | "P" :: args -> p_line args
   | "J" :: args -> j_line args
   | "E" :: args -> e_line args
-  | "U" :: args -> u_line args
+  | "U" :: args | "UB" :: args -> u_line args
   | "K" :: args -> k_line args
   | "W" :: args -> w_line args
   | "V" :: args -> v_line args
